@@ -45,7 +45,10 @@ class fixed_scalar_array(base_array):
 
     def __setitem__(self, idx, value):
         if isinstance(idx, slice):
-            self.__setslice__(idx.start, idx.stop, value)
+            if idx.step is None:
+                self.__setslice__(idx.start, idx.stop, value)
+            else:
+                self._values[idx] = list(map(self._TYPE._check, value))
         else:
             value = self._TYPE._check(value)
             self._values[idx] = value
@@ -96,7 +99,10 @@ class bound_scalar_array(base_array):
 
     def __setitem__(self, idx, value):
         if isinstance(idx, slice):
-            self.__setslice__(idx.start, idx.stop, value)
+            if idx.step is None:
+                self.__setslice__(idx.start, idx.stop, value)
+            else:
+                self._values[idx] = list(map(self._TYPE._check, value))
         else:
             value = self._TYPE._check(value)
             self._values[idx] = value
